@@ -278,7 +278,7 @@ def build_harness(san="asan", extra_defs=(), wrap=()):
         raise BuildBroken("link failed:\n" + (r.stdout + r.stderr)[:3000])
     return exe
 
-SAN_ENV = {"ASAN_OPTIONS": "detect_leaks=0:abort_on_error=0:exitcode=77:allocator_may_return_null=1", "UBSAN_OPTIONS": "print_stacktrace=0:halt_on_error=1:exitcode=78"}
+SAN_ENV = {"G_SLICE": "always-malloc", "ASAN_OPTIONS": "detect_leaks=0:abort_on_error=0:exitcode=77:allocator_may_return_null=1", "UBSAN_OPTIONS": "print_stacktrace=0:halt_on_error=1:exitcode=78"}
 def run_driver(exe, script, timeout=300, env_extra=None):
     env = dict(os.environ); env.update(SAN_ENV)
     if env_extra: env.update(env_extra)
